@@ -55,7 +55,7 @@ OnSMSG(ev) ==
        IF ~sh.ok THEN st' = [st EXCEPT !.must = First(st.must, "malformed-server-hello"), !.seen = st.seen \cup {2}]
        ELSE IF IsHRR(sh) THEN
             st' = [st EXCEPT !.must = First(st.must, CheckHRR(st.o, sh, st.nHRR)), !.hrr = sh, !.hrrSeen = TRUE, !.nHRR = st.nHRR + 1]
-       ELSE st' = [st EXCEPT !.must = First(st.must, CheckSH(st.o, sh, st.hrrSeen, st.hrr)), !.sh = sh, !.shSeen = TRUE, !.seen = st.seen \cup {2}]
+       ELSE st' = [st EXCEPT !.must = First(st.must, First(CheckSH(st.o, sh, st.hrrSeen, st.hrr), CheckKx(st.scn, SHGroup(sh)))), !.sh = sh, !.shSeen = TRUE, !.seen = st.seen \cup {2}]
      ELSE IF ev.t = 8 /\ ev.len = Len(ev.raw) THEN
        st' = [st EXCEPT !.must = First(st.must, CheckEE(st.o, ParseEE(ev.raw))), !.seen = st.seen \cup {8}]
      ELSE IF ev.t = 12 THEN
